@@ -9,6 +9,10 @@ from .. import gen, model, contracts
 from . import c02
 
 PROP = "C03"
+LEVEL_TEXT = 'Write-footprint monitor: after every assignment the whole content of the target, an alias, a bystander, the value operand and (for lazy receivers) the parent is compared with the list model; unique / hostile-float assigned values; mismatching ragged values must be refused. Exploration.'
+LEVEL_NOTE = "trusts numpy 2.x, CPython (copy.copy, slice semantics, big ints) and the reference model in rtmon/props/c03.py; decides the executions it produces, nothing more"
+TECHNIQUE = 'runtime monitoring: write-footprint tap (peek of every live array before/after) + list-model oracle'
+DESIGN_REF = "DESIGN.md sections 0, 5 (C03), 7"
 RULE = ("case = (row lengths, index expression accepted for reading with non-repeating rows | boolean ragged mask, value kind); "
         "the whole content of the target, of an alias ra[...], of a bystander array and of the value operand is compared with the "
         "list model after the write; distinct = hash of the case; non-trivial = >= 2 rows, >= 1 addressed cell (or a value that must be refused)")
